@@ -14,6 +14,23 @@
 
 #include "stream.h"
 
+/* (re)count waiting commands, handlers may have registered new ones */
+static int waitingCommands(const MPT_STRUCT(array) *arr, MPT_STRUCT(command) **base, int *len)
+{
+	MPT_STRUCT(command) *cmd = 0;
+	int pos, max = 0, count = 0;
+	
+	if (arr && arr->_buf) {
+		cmd = (void *) (arr->_buf + 1);
+		max = arr->_buf->_used / sizeof(*cmd);
+	}
+	for (pos = 0; pos < max; ++pos) {
+		if (cmd[pos].cmd) ++count;
+	}
+	*base = cmd;
+	*len = max;
+	return count;
+}
 /*!
  * \ingroup mptStream
  * \brief wait for return messages
@@ -103,13 +120,16 @@ extern int mpt_stream_sync(MPT_STRUCT(stream) *srm, size_t idlen, const MPT_STRU
 		}
 		/* handle message (and deregister handler) */
 		if ((mc = mpt_command_find(cmd, len, id))) {
-			ret = mc->cmd(mc->arg, &msg);
+			int (*reply)(void *, void *) = mc->cmd;
+			void *ptr = mc->arg;
 			mc->cmd = 0;
-			--count;
+			ret = reply(ptr, &msg);
+			count = waitingCommands(arr, &cmd, &len);
 		}
 		/* find fallback command */
 		else if ((mc = mpt_command_find(cmd, len, 0))) {
 			ret = mc->cmd(mc->arg, &msg);
+			count = waitingCommands(arr, &cmd, &len);
 		}
 		else {
 			ret = 0;
